@@ -150,6 +150,13 @@ def unit_resume(cx, fe, info, ex, G):
                     cx.oblige(r, 'restored/blobs', z3.And(
                         z3.Not(bn), cells_equal(ex, r, bl, r, Lb)),
                         kind='post')
+                # the dtype of the blobs is run state as well: add_bound
+                # allocates the blob array of a new shell from it
+                dt = b.fields.get('blobs_dtype', 'missing')
+                dtn = dt.isnone if isinstance(dt, MaybeNone) else z3.BoolVal(
+                    dt is None or dt == 'missing')
+                cx.oblige(r, 'restored/blobs_dtype_known_when_blobs_exist',
+                          z3.Implies(z3.Not(bn), z3.Not(dtn)), kind='post')
                 # bounds: same objects, same order, same proposal state, one
                 # shared generator (call_pre obligations)
                 Ba = ex.deref(r, a.fields['bounds'])
@@ -238,6 +245,11 @@ def resume_loops(ex, s0, s1, ss0, inblock, loop_ord):
                     z3.ForAll([i, j], z3.Implies(
                         z3.And(i >= 0, i < kk, j >= 0, j < bl.alen(i)),
                         Lb.at(i, j) == bl.at(i, j))))))))
+            dt = b.fields.get('blobs_dtype')
+            dtn = dt.isnone if isinstance(dt, MaybeNone) else z3.BoolVal(
+                dt is None)
+            out.append(('shells_read/blobs_dtype', z3.Implies(
+                z3.Not(none_now), z3.Not(dtn))))
         return out
     specs[k_shell] = LoopSpec(inv=inv_shell, prepare=prep_shell)
 
